@@ -132,6 +132,17 @@ class Quantity:
             vr = ge < self.last[t]
             vr[vr] = self.good[ge[vr]]
             add(t, self.hit(X[j]), P_KNOT, np.where(vl, gs - 1, -1), np.where(vr, ge, -1), j)
+            # duplicated abscissae once more, on the neighbouring doubles whose transform is still exactly the knot (several arguments map onto one abscissa)
+            dj = np.nonzero(gs != ge)[0]
+            if len(dj) and self.space != 'id':
+                a0 = self.hit(X[j[dj]])
+                for step in (-3, -2, -1, 1, 2, 3):
+                    a = a0.copy()
+                    for _ in range(abs(step)):
+                        a = np.nextafter(a, np.inf if step > 0 else -np.inf)
+                    m = self.tx(a) == X[j[dj]]
+                    if m.any():
+                        add(t[dj][m], a[m], P_KNOT, np.where(vl[dj], gs[dj] - 1, -1)[m], np.where(vr[dj], ge[dj], -1)[m], j[dj][m])
         g_all = np.nonzero(self.good)[0]
         t_all = T[g_all]
         isend = (g_all - self.first[t_all] <= 1) | (self.last[t_all] - 1 - g_all <= 1)
@@ -338,10 +349,10 @@ def check_quantity(ck, L, q, P, st):
     isknot = (kind == P_KNOT) & (jk >= 0)
     jj = np.where(isknot, jk, 0)
     dupk = isknot & (q.gs[jj] != q.ge[jj])
-    if dupk.any():                  # duplicated abscissa: either tabulated value or their mean is accepted
+    if dupk.any():                  # duplicated abscissa (an absorption edge stored as two knots): either TABULATED value is accepted - not a blend of the two
         ya, yb = q.Y[q.gs[jj]].astype(LD), q.Y[q.ge[jj]].astype(LD)
         S = (np.abs(ya) + np.abs(yb)).astype(float)
-        for c in (ya, yb, (ya + yb) / 2):
+        for c in (ya, yb):
             consider(*q.ratio(r.v, t, c, S, Dmax, xe, dupk & ~skip))
     if use_ext.any():
         rr, S, D = q.extension(t, xe)
@@ -606,6 +617,12 @@ def kissel_quantities(ktab, mac):
     return qb, qc
 
 
+def hull_energies(quantities=None):
+    """energies inside the hull of every non-monotone step of the classical tables (several intervals of one table contain the abscissa there)"""
+    qs = quantities if quantities is not None else build_quantities()
+    return sorted({float(q_.itx(np.array([lo + f_ * (hi - lo)]))[0]) for q_ in qs for (_t, lo, hi) in q_.hulls for f_ in (0.02, 0.5, 0.98) if q_.space != 'id'})
+
+
 def main(tier):
     ck = common.Check('C02', tier)
     mac = refdata.Macros()
@@ -653,6 +670,13 @@ def main(tier):
         raise common.Inconclusive('too few comparisons: %d values over %d non-trivial intervals' % (st['compared'], distinct))
     # functions of their arguments alone: a thinned grid re-run in other call orders and without an error slot
     _Z, _X = [x.ravel() for x in np.meshgrid(np.arange(1, 101), np.array([0.0, 5e-324, 1e-310, 2.2250738585072014e-308, 0.0009, 0.00154925, 0.1, 1.0, 3.0, 8.04, 20.0, 59.5, 100.0, 799.0, 801.0, 999.0, 15000.0, 17000.0, 25000.0]), indexing='ij')]
+    # ... plus energies INSIDE the hull of every non-monotone table step (where several intervals contain the abscissa: the reference is silent there, but the
+    # answer may still not depend on which table was looked at just before - 'last-argument-major' order visits all elements at one energy)
+    _hullE = hull_energies(classical)
+    if _hullE:
+        _Zh, _Xh = [x.ravel() for x in np.meshgrid(np.arange(1, 101), np.array(_hullE), indexing='ij')]
+        _Z, _X = np.concatenate([_Z, _Zh]), np.concatenate([_X, _Xh])
+    st['energies_inside_non_monotone_steps'] = len(_hullE)
     _Z2, _S2, _P2 = [x.ravel() for x in np.meshgrid(np.arange(1, 101, 3), np.arange(0, 12), np.array([0.0, 1e-310, 0.5, 2.0, 50.0, 150.0]), indexing='ij')]
     _extra = execlib.independence(ck, 'c02', 'shipped', [(f, _Z, _X) for f in ('CS_Photo', 'CS_Rayl', 'CS_Compt', 'CS_Energy', 'FF_Rayl', 'SF_Compt', 'Fi', 'Fii', 'ComptonProfile')] +
                                   [('ComptonProfile_Partial', _Z2, _S2, _P2)])
@@ -670,7 +694,7 @@ def main(tier):
                     % (tuple(fracs), FR_ALL),
                samples=st['samples'][:40], values_compared=st['compared'], intervals_compared=anyiv,
                failures_expected_and_observed=st['errors_expected_and_seen'], no_table_failures_observed=st['nodata_failures_confirmed'],
-               calls_in_the_build_of_a_dirty_tree=st['calls_in_the_build_of_a_dirty_tree'], kissel_extension_values_compared=st['extension_compared'], kissel_total_values_compared=st['total_compared'],
+               calls_in_the_build_of_a_dirty_tree=st['calls_in_the_build_of_a_dirty_tree'], energies_inside_non_monotone_steps=st.get('energies_inside_non_monotone_steps'), kissel_extension_values_compared=st['extension_compared'], kissel_total_values_compared=st['total_compared'],
                kissel_probes_below_edge_inside_table=st['kissel_below_edge_inside_table'],
                kissel_probes_on_tables_without_edge_energy=st['kissel_edge_unknown_probes'],
                interior_probes_dropped_by_rounding=st['dropped_interior'], probes_skipped_hull_or_degenerate=st['skipped_hull_or_degenerate'],
@@ -679,7 +703,7 @@ def main(tier):
     return ck.finish(cov, ['refdata.py parsers are independent of xrayfiles.c/pr_data.c; knots rounded through %.10E as the generator prints them',
                            'reference spline evaluated in x87 extended precision; tolerance 1e-9|ref| + 4e-15 S + D dx (forward error bound)',
                            'transformed arguments computed with the C library log() (math.log), the library is allowed 2 ulp on it',
-                           'at a duplicated abscissa either tabulated value, their mean or either one-sided limit is accepted; intervals on the hull '
+                           'at a duplicated abscissa either tabulated value or either one-sided limit is accepted (not a blend of the two); intervals on the hull '
                            'of the non-monotone step of one photo table are skipped and counted',
                            'within 4 ulp below the first knot and 1e-7 above the last knot (table space) an error or the continued spline is accepted',
                            'a knot at argument 0 may be refused by SF_Compt ("q must be positive"); FF_Rayl(Z,0)=Z is the documented special case',
